@@ -310,6 +310,27 @@ func checkQuiescent(l *lab.Lab, o *stressOpts, getsSinceClear, getsTotal, setsFa
 			}
 		}
 	}
+	// C03, black-box form: RemainingCost() == MaxCost - sum of the (fixed) costs of the resident ENTRIES
+	if noRaise && o.Cfg.Collide == 0 && (o.CostMode == "key" || o.CostMode == "one" || o.CostMode == "zero" || o.CostMode == "keyskew") {
+		var resident int64
+		for _, e := range s.Entries {
+			ki := l.HashIdx[e.Key]
+			want := int64(1)
+			switch o.CostMode {
+			case "key", "zero":
+				want = lab.KeyCost(ki)
+			case "keyskew":
+				want = lab.KeyCostSkew(ki)
+			}
+			if !o.Cfg.IgnoreInternalCost {
+				want += ristretto.VerifItemSize()
+			}
+			resident += want
+		}
+		if rc != s.MaxCost-resident {
+			add("C03/remaining-vs-resident-costs", fmt.Sprintf("RemainingCost()=%d but MaxCost - sum of the costs of the %d resident entries = %d - %d", rc, len(s.Entries), s.MaxCost, resident), nil)
+		}
+	}
 	// I1: policy keys == map keys (collision-free key sets only)
 	if o.Cfg.Collide == 0 {
 		inMap := map[uint64]struct{}{}
